@@ -16,6 +16,44 @@ from facts import strip, walk, show, const_val, normalize_cond
 SETJMP = {"setjmp", "_setjmp", "__sigsetjmp", "sigsetjmp", "__builtin_setjmp"}
 CTX_API = {"save_context", "restore_context", "pop_context"} | SETJMP
 
+# functions that are restore_context() for their context parameter: name -> {"ctx": parameter index,
+# "lower": index of the parameter subtracted from save_sp before the restore, or None}.  Filled by
+# find_restore_wrappers() from the program (nothing is listed by hand).
+RESTORE_WRAPPERS = {}
+
+
+def find_restore_wrappers(prog, effects=None):
+    """A function is a restore wrapper when every path from its entry to its exit passes through
+    restore_context(P) with P its own error_context_t* parameter, and nothing that may raise or run LPC
+    precedes that call."""
+    RESTORE_WRAPPERS.clear()
+    for f in prog.functions():
+        if f.name in ("restore_context", "save_context", "pop_context"):
+            continue
+        cps = [p for p in (f.params or []) if "error_context" in (p.get("t") or "")]
+        if not cps:
+            continue
+        for cp in cps:
+            sites = [(b, i, n) for b, i, n in f.calls("restore_context")
+                     if n.get("args") and strip(n["args"][0]).get("k") == "Ref" and strip(n["args"][0]).get("d") == "param" and strip(n["args"][0]).get("n") == cp.get("n")]
+            if not sites:
+                continue
+            blocks = {b.id for b, i, n in sites}
+            if f.reach_avoiding([f.entry], lambda b: f.exit in b.live_succ() and not b.nr, avoid_blocks=blocks) is not None or f.entry in blocks and False:
+                continue
+            # nothing but the restore and plain stores
+            others = [n for b, i, n in f.calls() if n.get("fn") != "restore_context"]
+            if others:
+                continue
+            lower = None
+            for b, i, n in f.nodes():
+                if n.get("k") == "Asg" and n.get("op") == "-=" and strip(n["L"]).get("k") == "Mem" and strip(n["L"]).get("f") == "save_sp":
+                    r = strip(n["R"])
+                    if r.get("k") == "Ref" and r.get("d") == "param":
+                        lower = r.get("pi")
+            RESTORE_WRAPPERS[f.name] = {"ctx": cp.get("pi", 0), "lower": lower}
+    return RESTORE_WRAPPERS
+
 
 def ctx_var_of(arg):
     """&econ -> key of econ ; econ.context -> key of econ"""
@@ -47,6 +85,9 @@ class CtxAnalysis:
 
     def call_effect(self, st, n, record, blk, idx):
         fn = n.get("fn")
+        if fn in RESTORE_WRAPPERS and len(n.get("args") or []) > RESTORE_WRAPPERS[fn]["ctx"]:
+            n = dict(n, args=[n["args"][RESTORE_WRAPPERS[fn]["ctx"]]])
+            fn = "restore_context"
         if fn in CTX_API and n.get("args"):
             v = ctx_var_of(n["args"][0])
             if v is None:
